@@ -126,6 +126,12 @@ def check(ix, rep):
             else:
                 rep.ok('R-PARTIAL', f.module.rel, f.qual, '%s:%s' % (mon.label, nc.name), '', f.node.lineno)
 
+    # ---- bounded discrete-time operators: every list / ring-buffer index in range, no min()/max() of an empty slice
+    from sa.rules import windowrule
+    by = {m.kind: m for m in M.standard_monitors(ix)}
+    nw1, _ = windowrule.check_offline(ix, rep, by['discrete-offline'], which=('R-INDEX',))
+    nw2, _ = windowrule.check_online(ix, rep, by['discrete-online'], which=('R-INDEX',))
+    rep.floor('bounded discrete-time operators whose index obligations were derived', nw1 + nw2, 10)
     explanation = (
         'Static exhaustiveness/effect analysis. For each of the 20 concrete interpreter classes (synthesised from the '
         'factory call sites) the isinstance dispatch chain is resolved along the MRO and every one of the 39 node '
@@ -133,7 +139,9 @@ def check(ix, rep):
         'missing and compared with the reject matrix transcribed from the property. Online compute cells must build an '
         'operator of the same time interpretation under node.name with an update() of the right arity. Data-entry '
         'functions are checked for possibly-unbound locals (zero-iteration loops), unguarded operator look-ups by '
-        'data-supplied names, positional use of the data set; total operators must not raise on data.')
+        'data-supplied names, positional use of the data set; total operators must not raise on data. R-INDEX: the bounded discrete-time '
+        'handlers and ring-buffer operations are interpreted symbolically for arbitrary 0 <= begin <= end and trace length >= 1; every index and '
+        'every min()/max() over a slice yields a linear obligation (index in range, slice non-empty) discharged by Fourier-Motzkin elimination.')
     assumptions = [
         'Python semantics of isinstance dispatch and MRO as modelled by the resolver (C3 linearisation from source)',
         'the reject matrix is the one the property states: online rejects unbounded/bounded future and next; dense rejects '
